@@ -137,7 +137,7 @@ def first_order_match(pat, t, inst=None):
 
                 if heuristic_match:
                     # Heuristic matching: just assign pat.fun to t.fun.
-                    if t.is_comb():
+                    if t.is_comb() and pat.fun.is_svar():
                         # As for a bare variable: what is assigned must not
                         # contain bound variables of the enclosing abstractions.
                         if bd_vars and t.fun.has_vars(bd_vars):
@@ -147,6 +147,11 @@ def first_order_match(pat, t, inst=None):
                         except TypeMatchException:
                             raise MatchException(trace)
                         inst[pat.head.name] = t.fun
+                        match(pat.arg, t.arg)
+                    elif t.is_comb():
+                        # The head variable is applied to several arguments:
+                        # take off the last one on both sides.
+                        match(pat.fun, t.fun)
                         match(pat.arg, t.arg)
                     else:
                         raise MatchException(trace)
